@@ -72,6 +72,7 @@ func checkFlow(p flowParams, x *verifkit.Exec) []verifkit.Violation {
 	dlqOpenRun := map[recKey]bool{} // a DLQ write of the record is pending or confirmed in the current run
 	filtered := map[recKey]bool{}
 	nackedInEpoch := map[recKey]bool{}
+	procRejected := map[recKey]bool{} // a processor returned an error record for it in this run
 	recvOrder := map[string]map[string][]int{}
 	for _, d := range append(append([]string{}, a.dests...), "dlq") {
 		recvOrder[d] = map[string][]int{}
@@ -166,6 +167,11 @@ func checkFlow(p flowParams, x *verifkit.Exec) []verifkit.Violation {
 					delete(nackedInEpoch, k)
 				}
 			}
+			for k := range procRejected {
+				if k.src == e.Comp {
+					delete(procRejected, k)
+				}
+			}
 			for k := range dlqNacked {
 				if k.src == e.Comp {
 					delete(dlqNacked, k)
@@ -221,6 +227,9 @@ func checkFlow(p flowParams, x *verifkit.Exec) []verifkit.Violation {
 			}
 			if nackedInEpoch[k] && !dlqOK[k] {
 				a.bad("C07/rejected-record-acked-without-dlq", "record %d of %s was rejected by a destination in this run and acknowledged without a confirmed DLQ write (event #%d)", e.Idx, e.Comp, e.Seq)
+			}
+			if procRejected[k] && !dlqOK[k] {
+				a.bad("C07/rejected-record-acked-without-dlq", "a processor returned an error for record %d of %s in this run, yet the record was acknowledged without a confirmed DLQ write (event #%d)", e.Idx, e.Comp, e.Seq)
 			}
 			n := len(acked[ek])
 			if n > len(emitted[ek]) || emitted[ek][n-1] != e.Idx {
@@ -286,6 +295,8 @@ func checkFlow(p flowParams, x *verifkit.Exec) []verifkit.Violation {
 			nackedInEpoch[k] = true
 		case e.Comp == "proc" && e.Kind == "filter":
 			filtered[recKey{e.Arg, e.Idx}] = true
+		case e.Comp == "proc" && e.Kind == "error":
+			procRejected[recKey{e.Arg, e.Idx}] = true
 		case e.Comp == "ctl" && e.Kind == "call" && e.Arg == "force":
 			forceCalled = true
 			for c, n := range opens {
